@@ -1088,8 +1088,9 @@ class Linter:
             fname=fname,
             config=config,
         )
-        # Get rules as appropriate
-        rule_pack = self.get_rulepack(config=config)
+        # Get rules as appropriate. NOTE: Use the config from the parsed
+        # string, which (as when linting a path) includes any inline config.
+        rule_pack = self.get_rulepack(config=parsed.config)
         # Lint the file and return the LintedFile
         return self.lint_parsed(
             parsed,
